@@ -95,14 +95,21 @@ def run(ctx):
             cls0, rules0 = G.build(P, gr)
             # a grammar on which the real code needs more than a few CPU seconds for these short inputs is a matter for
             # C12 (work bound, known finding F14): skipped and counted
-            def cold_run():
+            def cold_run(limit=None):
                 out = {}
+                if limit is not None:
+                    for r_ in repetitions(P, rules0):
+                        r_.lparse_cache.max_size = limit
                 for q in set(reqs):
                     P.ParseCache.clear_caches()
                     out[q] = request(P, rules0[0], *q)
+                if limit is not None:
+                    for r_ in repetitions(P, rules0):
+                        r_.lparse_cache.max_size = None
                 return out
             cold = ec.with_budget(3 * ec.CASE_BUDGET_S, cold_run, None)
-            if cold is None:
+            # with one-entry caches the real code can be exponentially slower on a recursive grammar (work bound again)
+            if cold is None or ec.with_budget(3 * ec.CASE_BUDGET_S, lambda: cold_run(1), None) is None:
                 slow_skipped += 1
                 continue
             # history run
